@@ -631,7 +631,7 @@ void RowReordering::addRow(int row, int cellPred, int cellNext) {
   newRow.row = row;
   newRow.cellPred = cellPred;
   newRow.cellNext = cellNext;
-  assert(cellPred != cellNext);
+  assert(cellPred != cellNext || cellPred == -1);  // (-1, -1): the window covers a whole row
   assert(cellPred == -1 || placement_.cellRow(cellPred) == row);
   assert(cellNext == -1 || placement_.cellRow(cellNext) == row);
   newRow.minPos = placement_.boundaryAfter(row, cellPred);
